@@ -881,6 +881,9 @@ def run(ctx):
     r18a(ctx)
     r18b(ctx)
     r18d(ctx)
+    # a typed value is decoded from the XML on every read: a decoded pair kept on the wrapper outlives the property setters, which write the attributes directly (rule shared with C14)
+    from .c14 import r14i
+    r14i(ctx)
 
 
 from ..selftest import Seed, unparse_seed  # noqa: E402
